@@ -1,8 +1,73 @@
-import NemoVerif.Models.Stream
+/-
+  C18 — streaming output does not depend on how the LLM text is chunked.
+  Property theorems only (helper lemmas: Lemmas/Stream.lean; model: Models/Stream.lean — the handler
+  as repaired by fixes/C18-streaming-chunk-invariance.diff; the unrepaired code and its kernel-checked
+  counterexamples: Models/StreamAsIs.lean and the `as_is_counterexample_*` theorems below).
+
+  All theorems are unbounded: ∀ configuration (prefix, suffix, any number of non-empty stop
+  sequences), ∀ text, ∀ chunking into non-empty tokens, ∀ end-of-stream protocol.
+-/
+import NemoVerif.Lemmas.Stream
 namespace NemoVerif.C18
 open NemoVerif.Stream
 
-theorem placeholder_spec_nil (cfg : Cfg) (h : cfg.pfx = []) (e : EndProto) : spec cfg [] e = cutAndStrip cfg [] := by
-  simp [spec, h]
+/-- MAIN STATEMENT.  For every chunking `cs` of `text` the concatenation of the delivered chunks and
+    the final `completion` both equal `spec cfg text e`: the text with the prefix removed, cut at the
+    first stop sequence, with the suffix removed. -/
+theorem chunk_invariant (cfg : Cfg) (hS : NonemptyStops cfg.stop) (text : Str) (cs : List Str) (e : EndProto)
+    (hflat : cs.flatten = text) (hne : ∀ c ∈ cs, c ≠ []) :
+    delivered (run cfg cs e) = spec cfg text e ∧ (run cfg cs e).completion = spec cfg text e := by
+  subst hflat
+  exact run_eq_spec hS cs hne e
+
+/-- non-vacuity: the library's own configuration, a text with the suffix and a stop sequence, a chunking
+    that splits inside the prefix, the suffix and the stop sequence -/
+example :
+    let cfg : Cfg := { pfx := "  \"".toList, suffix := "\"".toList, stop := ["\"\n".toList] }
+    NonemptyStops cfg.stop ∧
+      delivered (run cfg [" ".toList, " \"Hi".toList, " there\"".toList, "\nuser".toList] .llmEnd) = "Hi there".toList := by
+  refine ⟨by intro s hs; simp at hs; subst hs; simp, by decide⟩
+
+/-- The property as a statement about two chunkings: same text ⇒ same delivered text and same completion. -/
+theorem chunking_independent (cfg : Cfg) (hS : NonemptyStops cfg.stop) (cs₁ cs₂ : List Str) (e : EndProto)
+    (h : cs₁.flatten = cs₂.flatten) (h₁ : ∀ c ∈ cs₁, c ≠ []) (h₂ : ∀ c ∈ cs₂, c ≠ []) :
+    delivered (run cfg cs₁ e) = delivered (run cfg cs₂ e) ∧ (run cfg cs₁ e).completion = (run cfg cs₂ e).completion := by
+  have a := chunk_invariant cfg hS _ cs₁ e rfl h₁
+  have b := chunk_invariant cfg hS _ cs₂ e h.symm h₂
+  exact ⟨a.1.trans b.1.symm, a.2.trans b.2.symm⟩
+
+/-- `completion` is exactly what was delivered. -/
+theorem completion_eq_delivered (cfg : Cfg) (hS : NonemptyStops cfg.stop) (cs : List Str) (e : EndProto)
+    (hne : ∀ c ∈ cs, c ≠ []) : (run cfg cs e).completion = delivered (run cfg cs e) := by
+  have a := chunk_invariant cfg hS _ cs e rfl hne
+  exact a.2.trans a.1.symm
+
+/-- When the text starts with the prefix the result does not depend on the end-of-stream protocol either. -/
+theorem spec_with_prefix (cfg : Cfg) (t : Str) (e : EndProto) :
+    spec cfg (cfg.pfx ++ t) e = stripSuffix cfg.suffix ((cutStop cfg.stop t).getD t) := by
+  by_cases hp : cfg.pfx = []
+  · simp [spec, hp, cutAndStrip]
+  · have : cfg.pfx.isPrefixOf (cfg.pfx ++ t) = true := List.isPrefixOf_iff_prefix.2 (List.prefix_append _ _)
+    simp [spec, hp, this, cutAndStrip]
+
+/-- Meaning of "cut at the first stop sequence" (1): `cutStop` answers `u` iff a stop sequence starts
+    right after `u` and after no shorter prefix of the text. -/
+theorem cut_is_earliest (S : List Str) (t u : Str) :
+    cutStop S t = some u ↔
+      ∃ r, t = u ++ r ∧ stopHere S r = true ∧ ∀ u' r', t = u' ++ r' → stopHere S r' = true → u.length ≤ u'.length :=
+  cutStop_some_iff S t u
+
+/-- Meaning of "cut at the first stop sequence" (2): `none` iff no stop sequence occurs anywhere. -/
+theorem no_cut_iff_no_stop (S : List Str) (t : Str) :
+    cutStop S t = none ↔ ∀ u r, t = u ++ r → stopHere S r = false :=
+  cutStop_none_iff S t
+
+/-- Hold-back safety: a text that does not end inside a pattern can be released — whatever follows,
+    the first stop sequence of the whole text is the one already visible, or lies in what follows. -/
+theorem release_is_safe (S : List Str) (hS : NonemptyStops S) (a b : Str) (h : holds S a = false) :
+    cutStop S (a ++ b) = match cutStop S a with
+      | some u => some u
+      | none => (cutStop S b).map (a ++ ·) :=
+  cutStop_append hS b (holds_false_iff.1 h)
 
 end NemoVerif.C18
